@@ -93,6 +93,13 @@ func c05Heal(r *rng, id string) {
 							idx = i
 						}
 					}
+					if r.chance(1, 3) {
+						// a long-lived process: the cluster remembers a high incarnation of this name, the
+						// restarted process starts again at 1 and has to jump over it in one refutation
+						ml.VerifSetIncarnation(v.m, uint32(150+r.intn(400)))
+						v.m.UpdateNode(time.Second)
+						time.Sleep(time.Second)
+					}
 					v.crash()
 					time.Sleep(time.Duration(500+r.intn(3000)) * time.Millisecond)
 					cl.net.mu.Lock()
